@@ -27,6 +27,17 @@ Theorem C18_bounded : forall (A : Type) (nilA : A) (cap : nat) (ops : list (op A
   (cap <> 0 -> oldest r < cap).
 Proof. exact ring_bounded. Qed.
 
+(* every index kept in the lookup map points inside the slots (so Get and Set never index out of range;
+   in the model: the defaults of nth are never what is read) *)
+Theorem C18_indices_in_range : forall (A : Type) (nilA : A) (cap : nat) (ops : list (op A)) (k : N) (i : nat),
+  cur_get k (current (exec A nilA (new A nilA cap) ops)) = Some i ->
+  i < length (entries (exec A nilA (new A nilA cap) ops)).
+Proof. exact ring_indices_in_range. Qed.
+
+Example C18_indices_hyp_satisfiable :
+  cur_get 7%N (current (exec nat 0 (new nat 0 2) [OSet 7%N 1; OSet 8%N 2; OSet 7%N 3])) = Some 0.
+Proof. reflexivity. Qed.
+
 (* capacity 0: Set is a no-op (no division by zero), nothing is ever remembered *)
 Theorem C18_cap0 : forall (A : Type) (nilA : A) (ops : list (op A)) (k : N),
   exec A nilA (new A nilA 0) ops = new A nilA 0 /\ get A nilA (exec A nilA (new A nilA 0) ops) k = None.
